@@ -83,7 +83,7 @@ theorem typeOfNode_true {env : Env} (hw : WfEnv env) {pc : Bool} {sp0 : Spell} {
 theorem seqNode_true {env : Env} {pc : Bool} {sp0 : Spell} {o : SeqOrigin} {a : Ann} {v : Val} {elem : Bool → Val → Raw}
     (hwf : v.wf env = true) (hp : v.plain = true) (h : seqNode env pc sp0 o a v elem = .ok true) :
     env.sub (v.typeOf env) (env.seqCls o) = true ∧
-      ∃ xs, v.iter = some xs ∧ ∀ x ∈ xs, elem (effSpell pc sp0 == .pep585) x = .ok true := by
+      ∃ xs, v.iter = some xs ∧ ∀ x ∈ xs, elem (sp0 == .pep585) x = .ok true := by
   unfold seqNode at h
   simp only [cfg_req_seq, cfg_req_seqT, cfg_genericChecksOrigin, cfg_origin_seq, cfg_iteratorSkip, not_iterator_of_plain hwf hp,
     elemQuant_eq, Bool.true_and, Bool.not_true, Bool.false_eq_true, ↓reduceIte, Bool.and_false] at h
@@ -100,7 +100,7 @@ theorem seqNode_true {env : Env} {pc : Bool} {sp0 : Spell} {o : SeqOrigin} {a : 
 theorem mapNode_true {env : Env} {pc : Bool} {sp0 : Spell} {o : MapOrigin} {k w : Ann} {v : Val} {key val : Bool → Val → Raw}
     (h : mapNode env pc sp0 o k w v key val = .ok true) :
     env.sub (v.typeOf env) (env.mapCls o) = true ∧
-      ∃ kvs, v.items = some kvs ∧ ∀ kv ∈ kvs, key (effSpell pc sp0 == .pep585) kv.1 = .ok true ∧ val (effSpell pc sp0 == .pep585) kv.2 = .ok true := by
+      ∃ kvs, v.items = some kvs ∧ ∀ kv ∈ kvs, key (sp0 == .pep585) kv.1 = .ok true ∧ val (sp0 == .pep585) kv.2 = .ok true := by
   unfold mapNode at h
   simp only [cfg_req_map, cfg_req_mapT, cfg_genericChecksOrigin, cfg_origin_map, cfg_itemsChecksKey, cfg_itemsChecksValue,
     Bool.true_and, Bool.not_true, Bool.false_eq_true, ↓reduceIte] at h
@@ -120,7 +120,7 @@ theorem mapNode_true {env : Env} {pc : Bool} {sp0 : Spell} {o : MapOrigin} {k w 
 theorem tupleNode_true {env : Env} {pc : Bool} {sp0 : Spell} {items : List Ann} {v : Val} {zip : Bool → List Val → Raw}
     (h : tupleNode env pc sp0 items v zip = .ok true) :
     env.sub (v.typeOf env) env.tupleCls = true ∧
-      ∃ xs, v.tupleItems = some xs ∧ xs.length = items.length ∧ zip (effSpell pc sp0 == .pep585) xs = .ok true := by
+      ∃ xs, v.tupleItems = some xs ∧ xs.length = items.length ∧ zip (sp0 == .pep585) xs = .ok true := by
   unfold tupleNode at h
   simp only [cfg_genericChecksOrigin, cfg_origin_tuple, cfg_tupleLengthTest,
     Bool.true_and, Bool.not_true, Bool.false_eq_true, ↓reduceIte] at h
@@ -142,7 +142,7 @@ theorem tupleNode_true {env : Env} {pc : Bool} {sp0 : Spell} {items : List Ann} 
 theorem tupleVarNode_true {env : Env} {pc : Bool} {sp0 : Spell} {a : Ann} {v : Val} {elem : Bool → Val → Raw}
     (h : tupleVarNode env pc sp0 a v elem = .ok true) :
     env.sub (v.typeOf env) env.tupleCls = true ∧
-      ∃ xs, v.tupleItems = some xs ∧ ∀ x ∈ xs, elem (effSpell pc sp0 == .pep585) x = .ok true := by
+      ∃ xs, v.tupleItems = some xs ∧ ∀ x ∈ xs, elem (sp0 == .pep585) x = .ok true := by
   unfold tupleVarNode at h
   simp only [cfg_genericChecksOrigin, cfg_origin_tuple,
     Bool.true_and, Bool.not_true, Bool.false_eq_true, ↓reduceIte] at h
